@@ -80,6 +80,50 @@ Definition dec_msg (l : list N) : option (msg * list N) :=
 Definition dec_msgs (l : list N) : option (list msg * list N) :=
   let? '(n, r) := take1 l in dec_list (nn n) dec_msg r.
 
+(* item of the failing codec: [fail; k; n; bytes] *)
+Definition dec_sitem (l : list N) : option (sitem * list N) :=
+  match l with
+  | fail :: k :: r =>
+    let? '(bs, r') := dec_bytes r in
+    match fail with
+    | 0%N => Some (mksitem bs None, r')
+    | 1%N => Some (mksitem bs (Some (nn k)), r')
+    | _ => None
+    end
+  | _ => None
+  end.
+
+Definition dec_sop (l : list N) : option (sop * list N) :=
+  match l with
+  | 1%N :: r => let? '(it, r') := dec_sitem r in Some (SFeed it, r')
+  | 2%N :: r => let? '(it, r') := dec_sitem r in Some (SSend it, r')
+  | 3%N :: r => Some (SFlush, r)
+  | 4%N :: r => Some (SClose, r)
+  | _ => None
+  end.
+
+Definition dec_wans (l : list N) : option (wans * list N) :=
+  match l with
+  | 0%N :: n :: r => Some (WAns (IoHelpers.AChunk (nn n)), r)
+  | 1%N :: k :: r => Some (WAns (IoHelpers.AErr k), r)
+  | 2%N :: _ :: r => Some (WPending, r)
+  | _ => None
+  end.
+
+Definition enc_sres (r : sres) : list N :=
+  match r with
+  | SOk => [0; 0]%N
+  | SCodecErr => [1%N; E_INVALID_DATA]
+  | SIoErr k => [1%N; k]
+  end.
+
+Definition enc_wev (e : IoHelpers.wev) : list N :=
+  match e with
+  | IoHelpers.WBytes bs => 1%N :: NN (length bs) :: bs
+  | IoHelpers.WFlush => [2%N]
+  | IoHelpers.WShutdown => [3%N]
+  end.
+
 Definition enc_panic (c : N) : list N := [2%N; c].
 
 Definition enc_lp (bs : list N) : list N := NN (length bs) :: bs.
@@ -174,6 +218,22 @@ Definition run_opt (l : list N) : option (list N) :=
     Some match iterate l [] (nn want) with
          | Panic c => enc_panic c
          | Ok its => 0%N :: enc_citems its
+         end
+  | 8%N => (* sink program with the failing codec: framer, ops, writer script *)
+    let? '(fr, l) := dec_framer l in
+    let? '(n, l) := take1 l in
+    let? '(ops, l) := dec_list (nn n) dec_sop l in
+    let? '(n, l) := take1 l in
+    let? '(ws, l) := dec_list (nn n) dec_wans l in
+    let '(rs, _, log) := sink_run fr ops sink_init (strip_pending ws) [] in
+    Some (0%N :: flat_map enc_sres rs ++ NN (length log) :: flat_map enc_wev log)
+  | 9%N => (* decode with the failing decoder: framer, schedule, stream bytes *)
+    let? '(fr, l) := dec_framer l in
+    let? '(sched, l) := dec_sched l in
+    if negb (is_bytes l) then None else
+    Some match decode_stream_probe fr sched l with
+         | Panic c => enc_panic c
+         | Ok r => 0%N :: enc_decoded r
          end
   | _ => None
   end.
